@@ -54,9 +54,22 @@ DEGENERATE = ['m = {"a": 1, "b": 2, "c": 3}\nfor k, v in m {\n delete(m, "a")\n 
               "toString(vfn)", "toString(vc)", "toInt(vl)", "toFloat(vm)", "typeOf(vcc)", "kindOf(nil)", "println", "x = println\nx = print", "load(\"/nonexistent/file\")", "load(1)", "defined(1)", "defined()"]
 
 
+# script goroutines that share VARIABLES, modules and functions (never a container): the interpreter's own tables are the only shared state
+CONC = [
+    'z = 0\nmodule m {\n a = 1\n}\ndone = make(chan int64)\ngo func() {\n for i = 0; i < 30000; i++ {\n  z = i\n }\n done <- 1\n}()\nfor j = 0; j < 3000; j++ {\n x = m\n}\n<-done',
+    'z = 0\nmodule m {\n a = 1\n func inc() {\n  a = a + 1\n }\n}\ndone = make(chan int64)\ngo func() {\n for i = 0; i < 20000; i++ {\n  m.inc()\n  z = i\n }\n done <- 1\n}()\nfor j = 0; j < 3000; j++ {\n x = m\n x.inc()\n}\n<-done',
+    'c = 0\nf = func() {\n c = c + 1\n var t = c\n return t\n}\ndone = make(chan int64)\ngo func() {\n for i = 0; i < 20000; i++ {\n  f()\n }\n done <- 1\n}()\nfor j = 0; j < 20000; j++ {\n f()\n}\n<-done',
+    'z = 0\ndone = make(chan int64)\ngo func() {\n for i = 0; i < 20000; i++ {\n  z = i\n }\n done <- 1\n}()\nfor j = 0; j < 20000; j++ {\n y = z\n func g() {\n  return y\n }\n g()\n}\n<-done',
+    'z = 0\ndone = make(chan int64)\nfor k = 0; k < 4; k++ {\n go func() {\n  for i = 0; i < 5000; i++ {\n   z = z + 1\n   module q {\n    b = i\n   }\n   w = q\n  }\n  done <- 1\n }()\n}\nfor k = 0; k < 4; k++ {\n <-done\n}',
+    'z = 0\ndone = make(chan int64)\ngo func() {\n for i = 0; i < 20000; i++ {\n  z = i\n }\n done <- 1\n}()\nfor j = 0; j < 5000; j++ {\n try {\n  throw z\n } catch e {\n  y = e\n }\n if j % 2 == 0 {\n  var u = j\n }\n}\n<-done',
+    'z = 0\nmodule m {\n a = 1\n module n {\n  b = 2\n }\n}\ndone = make(chan int64)\ngo func() {\n for i = 0; i < 20000; i++ {\n  z = i\n  m.a = i\n }\n done <- 1\n}()\nfor j = 0; j < 3000; j++ {\n x = m.n\n y = m\n}\n<-done',
+]
+
+
 def cases(ctx, rend):
     rng = random.Random(ctx.seed)
     out = [{"id": "deg|%d" % i, "src": s} for i, s in enumerate(DEGENERATE)]
+    out += [{"id": "conc|%d.%d" % (i, k), "src": s + "\n" * k} for i, s in enumerate(CONC) for k in range(3 if ctx.quick() else 12)]
     out += [{"id": "gram|" + s["id"], "src": s["src"]} for s in grammarcorpus.sources()]
     out += [{"id": "raw|" + s["id"], "src": s["src"]} for s in rawcorpus.cases()]
     fam = progs.fam_closures() + progs.fam_c09()[:60] + progs.fam_c07()[:80] + progs.rand_programs(ctx.seed + 11, 40 if ctx.quick() else 600)
@@ -138,7 +151,7 @@ def run(ctx):
     ctx.cov["distinct_nontrivial"] += len(uniq)
     ctx.cov["traces_validated_against_impl"] += total - len(rej)
     ctx.cov["outcomes"] = {k: sum(1 for o in obs if o["outcome"] == k) for k in ("value", "error", "panic", "dead", "timeout")}
-    ctx.cov["inputs_by_source"] = {k: sum(1 for c in uniq if c["id"].startswith(k)) for k in ("tmpl|", "deg|", "gram|", "raw|", "fam|", "soup|", "bytes|")}
+    ctx.cov["inputs_by_source"] = {k: sum(1 for c in uniq if c["id"].startswith(k)) for k in ("tmpl|", "deg|", "conc|", "gram|", "raw|", "fam|", "soup|", "bytes|")}
     ctx.sample({"input": uniq[len(srcs) // 2]["src"], "outcome": next((o["outcome"] for o in obs if o["id"] == uniq[len(srcs) // 2]["id"]), None)})
     ctx.sample({"input": DEGENERATE[0], "outcome": next((o["outcome"] for o in obs if o["id"] == "deg|0"), None)})
     seen = set()
